@@ -40,7 +40,10 @@ fn main() {
         "C13" => drive(&props::c13::C13, tier, seed, replay),
         "C14" => drive(&props::c14::C14, tier, seed, replay),
         "C15" => drive(&props::c15::C15, tier, seed, replay),
+        "C16" => drive(&props::c16::C16, tier, seed, replay),
+        "C17" => drive(&props::c17::C17, tier, seed, replay),
         "C18" => drive(&props::c18::C18, tier, seed, replay),
+        "C19" => drive(&props::c19::C19, tier, seed, replay),
         "C20" => drive(&props::c20::C20, tier, seed, replay),
         other => harness_error(&format!("unknown property {other}")),
     };
